@@ -42,6 +42,7 @@ Expired      == 3005     NotAvail   == 3508     ForceNoRec   == 3503
 ConnClosed   == 3000     HandlerDisc == 4242
 EAlready     == 105      EPermission == 103     EBadRequest  == 107
 ENotAvail    == 108      HandlerErr  == 477     EUnauth      == 101
+EExpired     == 110      ServerError == 3004
 UnsubClient  == 0        UnsubDisc   == 1       UnsubInvalidated == 2502
 
 \* csr: ClientSideRefresh for the connection and its subscriptions; handlers: the application registered
@@ -55,6 +56,7 @@ CfgMain  == {Cfg(TRUE, TRUE, TRUE, FALSE, TRUE)}
 CfgLoose == {Cfg(TRUE, TRUE, TRUE, FALSE, FALSE)}
 CfgMap   == {Cfg(TRUE, TRUE, TRUE, TRUE, TRUE)}
 CfgOther == {Cfg(FALSE, TRUE, FALSE, FALSE, TRUE), Cfg(TRUE, FALSE, TRUE, FALSE, TRUE), Cfg(FALSE, FALSE, FALSE, FALSE, FALSE)}
+CfgDesign == CfgMain \cup CfgLoose
 CfgQuick == CfgMain \cup CfgLoose \cup CfgMap \cup CfgOther
 
 VARIABLES
@@ -89,7 +91,9 @@ Modes4       == {"ok", "err", "disc", "async"}
 
 Sym(k, m, v) == [kind |-> k, mode |-> m, var |-> v]
 Alphabet ==
-       {Sym("connect", m, "ok") : m \in {"ok", "err", "disc", "nocred"}}
+       \* sserr / ssdisc: OnConnecting accepts, then a connect-time server-side subscription fails with a client
+       \* error / with a disconnect - AFTER connectCmd set authenticated and registered the connection in the hub
+       {Sym("connect", m, "ok") : m \in {"ok", "err", "disc", "nocred", "sserr", "ssdisc"}}
   \cup {Sym(k, m, "ok") : k \in HandlerKinds, m \in Modes4}
   \cup {Sym("refresh", "expired", "ok")}
   \cup {Sym("sub_refresh", "tagschange", "ok")}
@@ -171,6 +175,9 @@ Apply(e) ==
 (* dispatch of one command on an open, authenticated, usable connection with id > 0 (or send) *)
 Handle(a, n, i) ==
   LET k      == IF a.kind = "multi" THEN "subscribe" ELSE a.kind
+      \* the client's handlers are registered by the application inside OnConnect: a connection that authenticated
+      \* but whose connect command failed afterwards (close pending) has none
+      hh     == cfg.handlers /\ status = "connected"
       bad    == Eff(<<>>, <<BadRequest>>, sub, <<>>, FALSE)
       err(c) == Eff(<<ErrReply(i, c)>>, <<>>, sub, <<>>, FALSE)
       call   == <<CB(k, n, 0)>>
@@ -180,27 +187,27 @@ Handle(a, n, i) ==
         ELSE LET r == Result(k, i, a.mode) IN Eff(r.o, r.sp, r.sub, call \o r.cb, FALSE)
   IN CASE k \in {"empty", "pingfield"} -> bad
        [] k = "connect"     -> bad                                           \* already authenticated
-       [] k = "send"        -> IF cfg.handlers THEN Eff(<<>>, <<>>, sub, <<CB("send", n, 0)>>, FALSE)
+       [] k = "send"        -> IF hh THEN Eff(<<>>, <<>>, sub, <<CB("send", n, 0)>>, FALSE)
                                                ELSE Eff(<<>>, <<NotAvail>>, sub, <<>>, FALSE)
        [] k = "unsubscribe" -> IF a.var = "emptych" THEN bad
                                ELSE Eff(<<Reply(i, "unsubscribe")>>, <<>>, "none",
                                         IF sub = "live" THEN <<CB("unsubscribe", 0, UnsubClient)>> ELSE <<>>, FALSE)
        [] k = "subscribe"   -> IF a.var = "emptych" THEN bad
-                               ELSE IF ~cfg.handlers THEN err(ENotAvail)
+                               ELSE IF ~hh THEN err(ENotAvail)
                                ELSE IF sub # "none" THEN err(EAlready)
                                ELSE viaHandler("pending")
-       [] k = "rpc"         -> IF ~cfg.handlers THEN err(ENotAvail) ELSE viaHandler(sub)
+       [] k = "rpc"         -> IF ~hh THEN err(ENotAvail) ELSE viaHandler(sub)
        [] k \in {"publish", "presence", "presence_stats", "history"} ->
-                               IF ~cfg.handlers THEN err(ENotAvail)
+                               IF ~hh THEN err(ENotAvail)
                                ELSE IF a.var = "emptych" THEN bad
                                ELSE viaHandler(sub)
-       [] k = "refresh"     -> IF ~cfg.handlers THEN err(ENotAvail)
+       [] k = "refresh"     -> IF ~hh THEN err(ENotAvail)
                                ELSE IF a.var = "emptytok" THEN bad
                                ELSE IF ~cfg.csr THEN bad
                                ELSE viaHandler(sub)
        [] k = "sub_refresh" -> IF a.var = "emptych" THEN bad
                                ELSE IF sub # "live" THEN err(EPermission)
-                               ELSE IF ~cfg.handlers THEN err(ENotAvail)
+                               ELSE IF ~hh THEN err(ENotAvail)
                                ELSE IF ~cfg.csr THEN bad
                                ELSE IF a.var = "emptytok" THEN err(EBadRequest)
                                ELSE viaHandler(sub)
@@ -252,6 +259,18 @@ Cmd(a, im) ==
                        /\ out' = Append(out, ErrReply(i, EUnauth))
                        /\ cb' = Append(cb, CB("connecting", n, 0))
                        /\ UNCHANGED <<auth, status, tmr, closing>>
+                  [] a.mode = "sserr" ->
+                       \* error reply with the connection already authenticated: unusable all the same (every later
+                       \* command is refused, the stale timer still ends it), no connect callback, no timers
+                       /\ auth' = TRUE /\ unusable' = TRUE /\ reading' = ~cfg.strict
+                       /\ out' = Append(out, ErrReply(i, EExpired))
+                       /\ cb' = Append(cb, CB("connecting", n, 0))
+                       /\ UNCHANGED <<status, tmr, closing>>
+                  [] a.mode = "ssdisc" ->
+                       /\ auth' = TRUE /\ closing' = Append(closing, ServerError)
+                       /\ reading' = ~cfg.strict
+                       /\ cb' = Append(cb, CB("connecting", n, 0))
+                       /\ UNCHANGED <<status, tmr, unusable, out>>
                   [] a.mode \in {"disc", "nocred"} ->
                        /\ closing' = Append(closing, IF a.mode = "disc" THEN HandlerDisc ELSE BadRequest)
                        /\ reading' = ~cfg.strict
@@ -364,6 +383,20 @@ C09_Gate ==
        /\ Quiescent => /\ IsClosed
                        /\ CloseCode = BadRequest \/ CloseCode \in causes
 
+\* C09a': once a connect command has been answered with an error reply the connection is finished: EVERY later
+\* command (another connect included) is refused the same way, whether or not the failed connect had already
+\* authenticated the connection (a connect-time server-side subscription failing after addClient)
+FailedConnectBy(m) ==
+  \E q \in 1..Len(cmds) : cmds[q].kind = "connect" /\ cmds[q].id > 0
+     /\ \E x \in 1..m : out[x].t = "reply" /\ out[x].k = "error" /\ out[x].id = cmds[q].id /\ cmds[q].seen < x
+C09_FailedConnect ==
+  \A n \in 1..Len(cmds) :
+    LET c == cmds[n] IN
+    (~Framed(c) /\ FailedConnectBy(c.seen) /\ ~ConnectedBy(c.seen) /\ ~ClosedBy(c.seen)) =>
+       /\ \A x \in 1..Len(cb) : cb[x].n # n
+       /\ Quiescent => /\ IsClosed
+                       /\ CloseCode = BadRequest \/ CloseCode \in causes
+
 \* C09b: exactly one reply per command with an id (send excepted) unless the connection closed
 NeedsReply(c) == ~Framed(c) /\ c.id > 0 /\ c.kind # "send"
 C09_Once ==
@@ -391,7 +424,7 @@ C09_Pong ==
 C09_Handlers ==
   \A n \in 1..Len(cmds) : Cardinality({x \in 1..Len(cb) : cb[x].n = n}) <= 1
 
-C09 == C09_Gate /\ C09_Once /\ C09_Pong /\ C09_Handlers
+C09 == C09_Gate /\ C09_FailedConnect /\ C09_Once /\ C09_Pong /\ C09_Handlers
 
 TypeOK ==
   /\ status \in {"connecting", "connected", "closed"}
